@@ -64,8 +64,30 @@ def lambda_(rc):
     pd = mod.functions["power_divergence"]
     d = pd.param_default("lambda_")
     rc.ob(f"power_divergence default lambda_={const_str(d)!r}")
-    if const_str(d) != "cressie-read":
+    okdef = const_str(d) == "cressie-read"
+    if not okdef and isinstance(d, ast.Constant) and d.value is None:
+        # a None default is the same default when it is replaced under an `is None` test
+        for s_ in sites(pd.node, lambda n: isinstance(n, ast.Assign) and dotted(n.targets[0]) == "lambda_" and const_str(n.value) == "cressie-read"):
+            if any(pol and isinstance(t, ast.Compare) and dotted(t.left) == "lambda_" and isinstance(t.ops[0], ast.Is) and isinstance(t.comparators[0], ast.Constant) and t.comparators[0].value is None
+                   for t, pol in s_.conds):
+                okdef = True
+    if not okdef:
         rc.fail(pd, pd.node, "power_divergence defaults to the Cressie-Read statistic", construct="default lambda_")
+    # lambda_ = 0 (the G-test) is a legitimate numeric value: it must never be tested by truthiness
+    def _leaves(t):
+        if isinstance(t, ast.BoolOp):
+            for v in t.values:
+                yield from _leaves(v)
+        elif isinstance(t, ast.UnaryOp) and isinstance(t.op, ast.Not):
+            yield from _leaves(t.operand)
+        else:
+            yield t
+    for n in walk_no_nested(pd.node):
+        tests = [n.test] if isinstance(n, (ast.If, ast.IfExp, ast.While)) else ([n] if isinstance(n, ast.BoolOp) else [])
+        for t in tests:
+            if any(dotted(x) == "lambda_" for x in _leaves(t)):
+                rc.fail(pd, n, "`lambda_` is tested by truthiness: the numeric value 0 (the documented G-test) is silently replaced by another statistic", construct="lambda_ truthiness")
+                break
     cc = calls_named(pd, "chi2_contingency")
     for c in cc:
         rc.ob(f"contingency test call {norm(c, 70)}")
@@ -355,6 +377,20 @@ def residuals(rc):
         rc.fail(fi, fn, "the conditional test must correlate the two residuals", construct="correlate residuals")
     if not unc:
         rc.fail(fi, fn, "the unconditional test must correlate X with Y", construct="correlate raw")
+    # the statistic and p-value that reach the result come from the Pearson test on every path (no literal substituted under a data-dependent guard)
+    res_names = set()
+    for n in walk_no_nested(fn):
+        if isinstance(n, ast.Assign) and isinstance(n.targets[0], ast.Tuple) and isinstance(n.value, ast.Call) and call_name(n.value) == "pearsonr":
+            res_names |= {dotted(x) for x in n.targets[0].elts}
+    for n in walk_no_nested(fn):
+        if not isinstance(n, (ast.Assign, ast.AugAssign)):
+            continue
+        tg = n.targets[0] if isinstance(n, ast.Assign) else n.target
+        names = {dotted(x) for x in (tg.elts if isinstance(tg, ast.Tuple) else [tg])}
+        if names & res_names and not (isinstance(n.value, ast.Call) and call_name(n.value) == "pearsonr"):
+            rc.fail(fi, n, f"`{norm(n, 80)}`: the coefficient / p-value of the partial-correlation test is replaced by something other than the Pearson test of the residuals on this path "
+                    "(a literal behind a data-dependent guard breaks invariance to rescaling)", construct="pearson result overridden")
+    rc.ob(f"pearsonr: result names {sorted(res_names)} are only ever bound to the Pearson test's output")
 
 
 _PD_BOOL = '    if boolean:\n        return p_value >= kwargs["significance_level"]\n    else:\n        return chi, p_value, dof'
@@ -366,6 +402,11 @@ def defuse(rc):
     _sh.defuse_rule(rc, _sh.anchor_files("C19"))
 
 MUTANTS = [
+    dict(kind="break", name="lambda-falsy-fallback", file=CI, expect="C19.lambda",
+         old='    if (X in Z) or (Y in Z):\n        raise ValueError(\n            f"The variables X or Y can\'t be in Z. Found {X if X in Z else Y} in Z."\n        )\n\n    # Step 2: Do a simple contingency test if there are no conditional variables.',
+         new='    if not lambda_:\n        lambda_ = "cressie-read"\n    if (X in Z) or (Y in Z):\n        raise ValueError(\n            f"The variables X or Y can\'t be in Z. Found {X if X in Z else Y} in Z."\n        )\n\n    # Step 2: Do a simple contingency test if there are no conditional variables.'),
+    dict(kind="break", name="pearson-constant-residual-shortcut", file=CI, expect="C19.residuals",
+         old="        coef, p_value = stats.pearsonr(residual_X, residual_Y)\n", new="        if np.isclose(residual_X.std(), 0):\n            coef, p_value = 0.0, 1.0\n        else:\n            coef, p_value = stats.pearsonr(residual_X, residual_Y)\n"),
     dict(kind="break", name="gsq-uses-pearson", file=CI, expect="C19.lambda",
          old='    return power_divergence(\n        X=X, Y=Y, Z=Z, data=data, boolean=boolean, lambda_="log-likelihood", **kwargs\n    )\n\n\ndef log_likelihood',
          new='    return power_divergence(\n        X=X, Y=Y, Z=Z, data=data, boolean=boolean, lambda_="pearson", **kwargs\n    )\n\n\ndef log_likelihood'),
@@ -388,6 +429,8 @@ MUTANTS = [
          old="p_value = 1 - stats.chi2.cdf(chi, df=dof)", new="p_value = 1 - stats.chi2.cdf(chi, df=1)"),
     dict(kind="break", name="residual-y-uses-x-coef", file=CI, expect="C19.residuals",
          old="residual_Y = data.loc[:, Y] - data.loc[:, Z].dot(Y_coef)", new="residual_Y = data.loc[:, Y] - data.loc[:, Z].dot(X_coef)"),
+    dict(kind="twin", name="lambda-none-default-is-none-test", file=CI,
+         old='def power_divergence(X, Y, Z, data, boolean=True, lambda_="cressie-read", **kwargs):', new='def power_divergence(X, Y, Z, data, boolean=True, lambda_=None, **kwargs):\n    if lambda_ is None:\n        lambda_ = "cressie-read"'),
     dict(kind="twin", name="verdict-as-if", file=CI,
          old=_PD_BOOL, new='    if not boolean:\n        return chi, p_value, dof\n    if kwargs["significance_level"] <= p_value:\n        return True\n    return False'),
     dict(kind="twin", name="pvalue-sf", file=CI,
